@@ -216,6 +216,12 @@ def eff_scale(model, P):
     return b2f(model.call("scale_after", scale0=f2b(P["scale"]), ops=ops)["scale"])
 
 
+def orig_scale(model, P):
+    """scale attribute of the ORIGINAL object after the same history, computed by the model (`scaleOfOriginal`)"""
+    ops = [[k, f2b(c)] for k, c in (P.get("rescale") or [])]
+    return b2f(model.call("scale_after", scale0=f2b(P["scale"]), ops=ops)["orig"])
+
+
 class Impl:
     """the real scico object of a case, with flat-vector interfaces"""
 
@@ -227,6 +233,7 @@ class Impl:
         fam, P = case["fam"], case["params"]
         rd, dt = real_dtype(case), np_dtype(case)
         self.lam = float(case["lam"])
+        self.f_orig = None
         if fam not in ("sql2loss", "sql2abs", "sql2sqabs", "lossgen"):
             f = make_functional(fam, P)
         elif fam in ("sql2loss", "sql2abs", "sql2sqabs"):
@@ -248,7 +255,8 @@ class Impl:
                 A = linop.Diagonal(to_scico(case, flat_value(case, "a"), dt))
             kw = {"y": ys, "A": A, "scale": float(P["scale"]), "W": W}
             cls = {"sql2loss": loss.SquaredL2Loss, "sql2abs": loss.SquaredL2AbsLoss, "sql2sqabs": loss.SquaredL2SquaredAbsLoss}[fam]
-            f = apply_rescale(cls(**kw), P.get("rescale"))
+            self.f_orig = cls(**kw)
+            f = apply_rescale(self.f_orig, P.get("rescale"))
         elif fam == "lossgen":
             # generic Loss(y, A=None|Identity, f=<functional>, scale): prox by translation
             ys = to_scico(case, np.asarray(case["y"], dtype=np.float64), rd)
@@ -257,7 +265,8 @@ class Impl:
                 shp = tuple(case_shapes(case)) if case.get("blocks") is not None else tuple(case["shape"])
                 A = linop.Identity(shp, input_dtype=dt)
             inner = make_functional(P["inner"], P)
-            f = apply_rescale(loss.Loss(y=ys, A=A, f=inner, scale=float(P["scale"])), P.get("rescale"))
+            self.f_orig = loss.Loss(y=ys, A=A, f=inner, scale=float(P["scale"]))
+            f = apply_rescale(self.f_orig, P.get("rescale"))
         self.f = f
 
     def has_prox(self):
@@ -270,6 +279,10 @@ class Impl:
     def prox_flat(self, vflat):
         x = self.f.prox(to_scico(self.case, vflat), self.lam_arg())
         return from_scico(x)
+
+    def prox_flat_orig(self, vflat):
+        """prox of the ORIGINAL loss object (the one the rescalings `c*L`, `L/c` were derived from)"""
+        return from_scico(self.f_orig.prox(to_scico(self.case, vflat), self.lam_arg()))
 
     def value(self, xflat):
         """f(x) on the implementation (float; inf for indicators outside their set)"""
@@ -354,18 +367,33 @@ def model_eval(model, case, impl=None):
             r = model.call("l1l2c", vre=re, vim=im, lam=lam, beta=f2b(P["beta"]))
             return _cx(r), b2f(r["margin"])
         r = model.call("l1l2", v=fs2b(v), lam=lam, beta=f2b(P["beta"]))
+        case["_branch"] = r.get("branch")
         return np.asarray(b2fs(r["out"])), b2f(r["margin"])
     if fam in ("setdist", "sqsetdist"):
         y = proj_value(case, v)
         r = model.call(fam, v=fs2b(stacked(v)), y=fs2b(stacked(y)), lam=lam)
         return unstack(b2fs(r["out"])), None
     if fam == "nuclear":
-        # model acts on the singular values; U, Vh from numpy's SVD (the SVD itself is a contract)
         M = v.reshape(tuple(case["shape"]))
-        U, s, Vh = np.linalg.svd(M, full_matrices=False)
-        r = model.call("nuclear_sv", v=fs2b(s), lam=lam)
-        s2 = np.asarray(b2fs(r["out"]))
-        return ((U * s2) @ Vh).ravel(), None
+        if cplx:
+            # complex matrices: model on the singular values only (numpy SVD; outside the matrix theorem C02_nuclear)
+            U, s, Vh = np.linalg.svd(M, full_matrices=False)
+            r = model.call("nuclear_sv", v=fs2b(s), lam=lam)
+            s2 = np.asarray(b2fs(r["out"]))
+            return ((U * s2) @ Vh).ravel(), None
+        # real matrices: the factors returned by the code's own SVD call (`snp.linalg.svd(v, full_matrices=False)`) are handed
+        # to the model, which forms `U diag(max(0, s - lam)) Vh` itself; the hypotheses of C02_nuclear (the SVD contract) are
+        # checked numerically on these factors by `svd_contract`
+        import scico.numpy as snp
+
+        Mj = snp.array(M.astype(real_dtype(case)))
+        U, s, Vh = (np.asarray(t, dtype=np.float64) for t in snp.linalg.svd(Mj, full_matrices=False))
+        m_, n_ = M.shape
+        k_ = s.size
+        r = model.call("nuclear_full", m=m_, n=n_, k=k_, u=fs2b(U.ravel()), s=fs2b(s), vh=fs2b(Vh.ravel()), lam=lam)
+        case["_svd"] = svd_contract(M, U, s, Vh, np.asarray(b2fs(r["usv"])).reshape(m_, n_),
+                                    1e-4 if case.get("dtype") == "float32" else 1e-10)
+        return np.asarray(b2fs(r["out"])), None
     if fam == "lossgen":
         es = eff_scale(model, P)
         case["_scale"] = es
@@ -404,15 +432,17 @@ def model_eval(model, case, impl=None):
         w = np.asarray(case["w"], dtype=np.float64) if case.get("w") is not None else np.ones(n)
         y = np.asarray(case["y"], dtype=np.float64)
         absv = np.abs(v)
+        # coefficients handed to `_dep_cubic_root` (model), the root by the MODEL of `_dep_cubic_root` and by the code
         pq = model.call("cubic_pq", absv=fs2b(absv), y=fs2b(y), w=fs2b(w), lam=lam, scale=sc)
         p, q = np.asarray(b2fs(pq["p"])), np.asarray(b2fs(pq["q"]))
-        r = cubic_root_impl(p, q)
-        case["_cubic"] = {"p": p.tolist(), "q": q.tolist(), "r": r.tolist()}
-        # smallest relative gap of the root-selection condition (alpha*y vs 1 when v = 0)
+        rm = model.call("cubic_root", p=fs2b(p), q=fs2b(q))
+        case["_cubic"] = {"p": p.tolist(), "q": q.tolist(), "r": cubic_root_impl(p, q).tolist(), "r_model": b2fs(rm["r"]),
+                          "branch": list(rm["branch"])}
+        # the prox with the root computed by the model (C02_sqL2SqAbs_closed)
         if cplx:
             vre, vim = _split(v)
-            return _cx(model.call("sql2sqabsc", vre=vre, vim=vim, w=fs2b(w), r=fs2b(r), lam=lam, scale=sc)), None
-        return np.asarray(b2fs(model.call("sql2sqabs", v=fs2b(v), w=fs2b(w), r=fs2b(r), lam=lam, scale=sc)["out"])), None
+            return _cx(model.call("sql2sqabs_fullc", vre=vre, vim=vim, y=fs2b(y), w=fs2b(w), lam=lam, scale=sc)), None
+        return np.asarray(b2fs(model.call("sql2sqabs_full", v=fs2b(v), y=fs2b(y), w=fs2b(w), lam=lam, scale=sc)["out"])), None
     raise common.Infra(f"no model for family {fam}")
 
 
@@ -422,6 +452,22 @@ def proj_value(case, v):
 
     y = proj_scico(case["params"]["proj"])(to_scico(case, v))
     return from_scico(y)
+
+
+def svd_contract(M, U, s, Vh, usv_model, tol):
+    """hypotheses of C02_nuclear on the factors the code's SVD returned: orthonormal columns of U / rows of Vh, s >= 0,
+    U diag(s) Vh = M (the product formed by the MODEL).  Returns the list of violated items."""
+    bad = []
+    k = s.size
+    if np.max(np.abs(U.T @ U - np.eye(k)), initial=0.0) > tol * 10:
+        bad.append("columns of U not orthonormal")
+    if np.max(np.abs(Vh @ Vh.T - np.eye(k)), initial=0.0) > tol * 10:
+        bad.append("rows of Vh not orthonormal")
+    if np.any(s < 0):
+        bad.append("negative singular value")
+    if np.max(np.abs(usv_model - M), initial=0.0) > tol * 10 * (1 + np.max(np.abs(M), initial=0.0)):
+        bad.append("U diag(s) Vh != v")
+    return bad
 
 
 def cubic_root_impl(p, q):
